@@ -74,7 +74,7 @@ def poison(rng, doc):
     return kind
 
 
-def run_case(ctx, L, i):
+def _run_case_body(ctx, L, i, scope):
     rng = ctx.rng('C13', i)
     doc = B.writer_doc(rng, ascii_only=True, big=False)
     label = 'clean'
@@ -82,7 +82,6 @@ def run_case(ctx, L, i):
         label = poison(rng, doc)
     pv, pc = classify(doc)
     info = dict(index=i, kind=label, poison_value=pv, poison_char=pc)
-    scope = LedgerScope(L).__enter__()
     cif = None
     try:
         cif = B.build_cif(L, doc)
@@ -116,11 +115,19 @@ def run_case(ctx, L, i):
     finally:
         if cif:
             L.destroy(cif)
-    for suffix, detail in scope.finish():
-        ctx.violation(suffix, detail, info)
     ctx.drain_events(info)
     ctx.sample(info, 4)
 
+
+
+def run_case(ctx, L, i):
+    """the ledger is audited on every path out of the case, refusals included"""
+    scope = LedgerScope(L).__enter__()
+    try:
+        _run_case_body(ctx, L, i, scope)
+    finally:
+        for suffix, detail in scope.finish():
+            ctx.violation(suffix, detail, dict(index=i))
 
 def worker(ctx):
     L = ctx.L
